@@ -3,6 +3,7 @@ package rules
 import (
 	"go/token"
 	"go/types"
+	"morlockverif/checker/internal/core"
 	"strings"
 
 	"golang.org/x/tools/go/ssa"
@@ -45,7 +46,7 @@ func namedTypeName(t types.Type) string {
 		t = pt.Elem()
 	}
 	if n, ok := t.(*types.Named); ok {
-		return n.Obj().Name()
+		return core.ObjName(n.Obj())
 	}
 	return ""
 }
@@ -100,7 +101,7 @@ func newHandleModel(c *Ctx, rule string) *handleModel {
 		c.R.Undecided(rule, "anchor:handle type", c.pos(h.process.Pos()), "", "receiver is not a named type")
 		return nil
 	}
-	h.halt = c.P.Func("pkg/search/searchctl", h.T.Obj().Name(), "Halt")
+	h.halt = c.find("pkg/search/searchctl", core.ObjName(h.T.Obj()), "Halt")
 	if h.halt == nil {
 		c.R.Undecided(rule, "anchor:Halt", c.pos(h.process.Pos()), "", "the handle type has no Halt method")
 		return nil
